@@ -203,7 +203,7 @@ func genTrace(thorough bool, seed int64, emit func(traceEvent)) {
 				}
 				lens = append(lens, 47, 48, 49, 72)
 			} else {
-				lens = []int{1, 2, 3, 5, 11, 13, 23, 24, 25, 26, 30, 47, 48, 49}
+				lens = []int{1, 2, 11, 13, 24, 25, 30, 49}
 			}
 		case 'D':
 			type span struct{ a, b int }
@@ -222,14 +222,16 @@ func genTrace(thorough bool, seed int64, emit func(traceEvent)) {
 				}
 				lens = append(lens, 59, 60, 61, 365, 366)
 			} else {
-				lens = []int{1, 2, 3, 7, 27, 28, 29, 30, 31, 32, 35, 40, 61}
+				lens = []int{1, 2, 7, 28, 29, 31, 32, 61}
 			}
 		case 'M':
 			for t := hourIdx(2018, 1, 1, 0); t < hourIdx(2022, 1, 1, 0); t = finestStep(q, t) {
 				starts = append(starts, t)
 			}
 			for l := 1; l <= 30; l++ {
-				lens = append(lens, l)
+				if thorough || l <= 13 || l == 24 || l == 25 {
+					lens = append(lens, l)
+				}
 			}
 		case 'Y':
 			for y := 2012; y <= 2024; y++ {
